@@ -240,6 +240,10 @@ func (ss *Package) buildObjectSchema(srcMsg protoreflect.MessageDescriptor, opts
 		}
 	}
 
+	if err := checkFlattenCycle(objectSchema); err != nil {
+		return nil, err
+	}
+
 	entity, err := findPSMOptions(srcMsg)
 	if err != nil {
 		return nil, fmt.Errorf("PSM options for %s: %w", srcMsg.FullName(), err)
@@ -253,6 +257,41 @@ func (ss *Package) buildObjectSchema(srcMsg protoreflect.MessageDescriptor, opts
 	}
 
 	return objectSchema, nil
+}
+
+// checkFlattenCycle rejects an object whose flattened fields lead back to the
+// object itself: its client properties would be an infinite list. Objects which
+// are still being built are skipped, the enclosing build checks them once their
+// own properties are complete.
+func checkFlattenCycle(root *ObjectSchema) error {
+	rootName := root.FullName()
+	seen := map[string]struct{}{}
+	var walk func(obj *ObjectSchema) error
+	walk = func(obj *ObjectSchema) error {
+		for _, prop := range obj.Properties {
+			field, ok := prop.Schema.(*ObjectField)
+			if !ok || !field.Flatten {
+				continue
+			}
+			name := field.Ref.FullName()
+			if name == rootName {
+				return fmt.Errorf("property %q of %s is flattened, which recursively flattens %s into itself", prop.JSONName, obj.FullName(), rootName)
+			}
+			if _, ok := seen[name]; ok {
+				continue
+			}
+			seen[name] = struct{}{}
+			next, ok := field.Ref.To.(*ObjectSchema)
+			if !ok {
+				continue
+			}
+			if err := walk(next); err != nil {
+				return err
+			}
+		}
+		return nil
+	}
+	return walk(root)
 }
 
 func findPSMOptions(srcMsg protoreflect.MessageDescriptor) (*schema_j5pb.EntityObject, error) {
